@@ -57,7 +57,7 @@ theorem prV3Connack_PF (hP : CP P) (c : C) (parsed) (hst : ∀ x ∈ c.s.store, 
     · rename_i p
       refine .inl ?_
       by_cases h1 : p.rc = some 0 <;> by_cases h2 : p.sp = true <;> simp [h1, h2, h, hP.lax.rcv]
-      exact sendStored_all hP.lax _ h (fun x hx _ => hst x hx)
+      exact resendStored_all hP.lax _ h (fun x hx _ => hst x hx)
     · exact .inr (handleV3Error_F hP c _ h)
 
 theorem prV5Connack_PF (hP : CP P) (c : C) (parsed) (hst : ∀ x ∈ c.s.store, P (.send x.2 none))
@@ -70,7 +70,7 @@ theorem prV5Connack_PF (hP : CP P) (c : C) (parsed) (hst : ∀ x ∈ c.s.store, 
       refine .inl ?_
       have hf := propsFold_all (connackRecvProp_all hP.lax)
       by_cases h1 : p.rc = some 0 <;> by_cases h2 : p.sp = true <;> simp [h1, h2, h, hP.lax.rcv, hf]
-      refine sendStored_all hP.lax _ (hf _ _ h) (fun x hx _ => hst x ?_)
+      refine resendStored_all hP.lax _ (hf _ _ h) (fun x hx _ => hst x ?_)
       have := propsFold_store_sub connackRecvProp_store_sub _ _ x hx
       exact this
     · exact .inl (by simp [h, hP.lax.er])
